@@ -40,6 +40,7 @@ using idx_t     = multi::index;
 static FILE* fprog = nullptr;
 static FILE* fans  = nullptr;
 static int   g_internal = 0;
+static int   g_crashes = 0;  // programs of this stream that died; the stream is given up after a few (the first one is what gets reported)
 
 struct Ex {
 	long first, last;
@@ -1037,9 +1038,9 @@ template<class HT> static int child_replay(std::vector<std::string> const& lines
 template<class F> static int isolated(F&& body) {
 	std::fflush(fprog); std::fflush(fans);
 	pid_t pid = fork();
-	if(pid == 0) { int rc = body(); std::fflush(fprog); std::fflush(fans); std::_Exit(rc); }
+	if(pid == 0) { alarm(8); int rc = body(); std::fflush(fprog); std::fflush(fans); std::_Exit(rc); }  // a program that hangs (corrupted heap ...) ends as `CRASH signal 14`
 	int status = 0; waitpid(pid, &status, 0);
-	if(WIFSIGNALED(status)) { std::fprintf(fans, "CRASH signal %d\n", WTERMSIG(status)); std::fflush(fans); return 0; }
+	if(WIFSIGNALED(status)) { ++g_crashes; std::fprintf(fans, "CRASH signal %d\n", WTERMSIG(status)); std::fflush(fans); return 0; }
 	return WEXITSTATUS(status);
 }
 
@@ -1074,6 +1075,7 @@ int main(int argc, char** argv) {
 			std::fprintf(fprog, "cfg trivial %d\n", str ? 0 : 1);
 			int rc = isolated([&] { return str ? child_generated<HS>(seed, p, il, c06) : child_generated<HI>(seed, p, il, c06); });
 			worst = std::max(worst, rc);
+			if(g_crashes >= 4) { std::fprintf(fans, "ABORT stream after %d crashed programs\n", g_crashes); break; }
 		}
 	}
 	std::fclose(fprog); std::fclose(fans);
